@@ -84,7 +84,14 @@ Definition tw_output (c : cfg) (ups : list (nat * text)) : list N :=
    past the top).  A row is the list of its cells up to the last one ever written or erased to;
    erased tails are dropped, blanks inside are 32.  Every printable rune takes one cell.
    A rune printed at column >= width wraps to the next row (so that "never wraps" is a statement). *)
-Record tcfg := mktc { width : nat; onlcr : bool }.   (* onlcr: the tty turns "\n" into "\r\n" *)
+Record tcfg := mktc { width : nat; onlcr : bool; dec : bool }.
+(* onlcr: the tty turns "\n" into "\r\n".
+   dec: the right margin behaves as on DEC terminals and xterm (deferred wrap, "last column
+   flag"): after a rune is printed in the last column the cursor stays ON that column with the
+   flag set, so an erase-in-line issued then starts at the last column and blanks the rune just
+   printed; cursor movement clears the flag.  The state "column = width" below stands for
+   "last column, flag set".  With dec = false the margin is idealised: the cursor rests beyond
+   the last column and an erase there touches nothing. *)
 
 Record scr := mkscr { rows : list (list N); crow : nat; ccol : nat; cvis : bool; hides : nat }.
 Inductive pst := Ground | Esc | Csi (ps : list N).
@@ -98,17 +105,23 @@ Definition print (tc : tcfg) (s : scr) (x : N) : scr :=
   then mkscr (upd [] (rows s) (crow s) (fun row => put row (ccol s) x)) (crow s) (S (ccol s)) (cvis s) (hides s)
   else mkscr (upd [] (rows s) (S (crow s)) (fun row => put row 0 x)) (S (crow s)) 1 (cvis s) (hides s).
 
+(* the column the cursor is on, as erase and vertical movement see it *)
+Definition ecol (tc : tcfg) (s : scr) : nat :=
+  if (dec tc && (width tc <=? ccol s))%bool then width tc - 1 else ccol s.
+
 Definition line_feed (tc : tcfg) (s : scr) : scr :=
-  mkscr (rows s) (S (crow s)) (if onlcr tc then 0 else ccol s) (cvis s) (hides s).
+  mkscr (rows s) (S (crow s)) (if onlcr tc then 0 else ecol tc s) (cvis s) (hides s).
 Definition carriage_return (s : scr) : scr := mkscr (rows s) (crow s) 0 (cvis s) (hides s).
-Definition cursor_up (n : nat) (s : scr) : scr := mkscr (rows s) (crow s - n) (ccol s) (cvis s) (hides s).
+Definition cursor_up (tc : tcfg) (n : nat) (s : scr) : scr :=
+  mkscr (rows s) (crow s - n) (ecol tc s) (cvis s) (hides s).
 
 (* EL: 0 = cursor to end of line, 1 = start of line to cursor (inclusive), 2 = whole line *)
-Definition erase_line (mode : nat) (s : scr) : scr :=
+Definition erase_line (tc : tcfg) (mode : nat) (s : scr) : scr :=
+  let col := ecol tc s in
   let f := fun row : list N =>
     match mode with
-    | 0 => firstn (ccol s) row
-    | 1 => repeat 32%N (Nat.min (S (ccol s)) (length row)) ++ skipn (S (ccol s)) row
+    | 0 => firstn col row
+    | 1 => repeat 32%N (Nat.min (S col) (length row)) ++ skipn (S col) row
     | _ => []
     end in
   mkscr (upd [] (rows s) (crow s) f) (crow s) (ccol s) (cvis s) (hides s).
@@ -123,12 +136,12 @@ Definition num_param (ps : list N) (dflt : N) : N :=
   end.
 
 (* CSI dispatch on the final byte *)
-Definition dispatch (ps : list N) (fin : N) (s : scr) : scr :=
+Definition dispatch (tc : tcfg) (ps : list N) (fin : N) (s : scr) : scr :=
   if N.eqb fin 65 (* A: cursor up, 0 means 1 *)
-  then cursor_up (N.to_nat (N.max 1 (num_param ps 1))) s
+  then cursor_up tc (N.to_nat (N.max 1 (num_param ps 1))) s
   else if N.eqb fin 75 (* K *)
   then match num_param ps 0 with
-       | 0%N => erase_line 0 s | 1%N => erase_line 1 s | 2%N => erase_line 2 s | _ => s
+       | 0%N => erase_line tc 0 s | 1%N => erase_line tc 1 s | 2%N => erase_line tc 2 s | _ => s
        end
   else if (N.eqb fin 104 && list_eqb N.eqb ps [63;50;53]%N)%bool (* ?25h *) then set_vis true s
   else if (N.eqb fin 108 && list_eqb N.eqb ps [63;50;53]%N)%bool (* ?25l *) then set_vis false s
@@ -149,7 +162,7 @@ Definition step (tc : tcfg) (e : scr * pst) (x : N) : scr * pst :=
       else (s, Ground)
   | Csi ps =>
       if (N.leb 48 x && N.leb x 63)%bool then (s, Csi (ps ++ [x]))
-      else if (N.leb 64 x && N.leb x 126)%bool then (dispatch ps x s, Ground)
+      else if (N.leb 64 x && N.leb x 126)%bool then (dispatch tc ps x s, Ground)
       else if N.eqb x 27 then (s, Esc)
       else (s, Ground)
   end.
@@ -162,8 +175,8 @@ Definition interp (tc : tcfg) (s : scr) (c : cmd) : scr :=
   | Text t => fold_left (print tc) (visible t) s
   | LF => line_feed tc s
   | CR => carriage_return s
-  | Up n => cursor_up (N.to_nat (N.max 1 n)) s
-  | EraseEOL => erase_line 0 s
+  | Up n => cursor_up tc (N.to_nat (N.max 1 n)) s
+  | EraseEOL => erase_line tc 0 s
   | HideCur => set_vis false s
   | ShowCur => set_vis true s
   end.
@@ -184,7 +197,8 @@ Fixpoint rows_show (c : cfg) (ups : list (nat * text)) (rws : list (list N)) (n 
 
 Definition fits (tc : tcfg) (c : cfg) (ups : list (nat * text)) : bool :=
   forallb (fun u => (wf_text (snd u)
-                     && (length (visible (write_line_no_wrap (autotrim c) (cols c) (snd u))) <=? width tc))%bool) ups.
+                     && (length (visible (write_line_no_wrap (autotrim c) (cols c) (snd u)))
+                         + (if dec tc then 1 else 0) <=? width tc))%bool) ups.
 
 (* after every call: ground state, the cursor is on the line just written, every line shows its
    latest text and nothing below the lowest line is touched *)
@@ -203,8 +217,8 @@ Fixpoint live_ok (tc : tcfg) (c : cfg) (done todo : list (nat * text)) (e : scr 
   end.
 
 (* C20 on an observed sequence of output segments (one per WriteForLine, then Close) *)
-Definition C20_check_live (tc : tcfg) (c : cfg) (ups : list (nat * text)) (segs : list (list N)) : bool :=
-  if negb (fits tc c ups) then true else
+Definition C20_check_live_g (tg tc : tcfg) (c : cfg) (ups : list (nat * text)) (segs : list (list N)) : bool :=
+  if negb (fits tg c ups) then true else
   if negb (Nat.eqb (length segs) (S (length ups))) then false else
   match live_ok tc c [] ups (scr0, Ground) segs with
   | None => false
@@ -214,6 +228,8 @@ Definition C20_check_live (tc : tcfg) (c : cfg) (ups : list (nat * text)) (segs 
        && (length (rows (fst e')) <=? S (max_line ups))
        && Nat.eqb (crow (fst e')) (S (max_line ups)) && Nat.eqb (ccol (fst e')) 0 && cvis (fst e'))%bool
   end.
+
+Definition C20_check_live (tc : tcfg) := C20_check_live_g tc tc.
 
 (* C20 on the observed output of BufferedTerm.Close / VirtualTerm.WriteToOutput *)
 Definition buffered_spec (c : cfg) (ups : list (nat * text)) : text :=
